@@ -663,3 +663,152 @@ pub fn check_c17(ctx: &Ctx) -> i32 {
     });
     report.finish(ctx, "exploration", coverage, &["native release build (overflow checks off); the dev-profile and Miri passes are separate commands of the thorough tier"])
 }
+
+// ---------------------------------------------------------------------------------------------
+// Miri pass (thorough tier of C07 and C17): the pure codecs under the undefined-behaviour
+// interpreter. Miri cannot open a database (file-backed MAP_SHARED), so this covers exactly the
+// code that needs no mapping: every decoder of C17 except the crafted regions files, the page
+// payload codecs (raw page bytes, Pco, LZ4 through the public CompressionStrategy entry points; Zstd is C code behind FFI, which Miri cannot enter) and the
+// raw pointer readers of the raw formats on heap buffers at every alignment. Bounded by rounds,
+// not by wall-clock time, so that one run is the same work at any interpreter speed.
+
+fn miri_page_codecs(fz: &mut Fz<'_>, rng: &mut Rng) {
+    use vecdb::{BytesStrategy, CompressionStrategy, LZ4Strategy, PcodecStrategy, RawStrategy, ValueStrategy, ZeroCopyStrategy};
+    macro_rules! vals {
+        ($t:ty, $n:expr, $conv:expr) => {{
+            let n = $n;
+            let mode = rng.below(4);
+            let mut v: Vec<$t> = Vec::with_capacity(n);
+            for i in 0..n {
+                let x = match mode {
+                    0 => rng.next_u64(),
+                    1 => i as u64,
+                    2 => *rng.pick(&[0u64, 1, u64::MAX, u64::MAX - 1, 1 << 63, (1 << 63) - 1, 0x7ff0_0000_0000_0000, 0xfff8_0000_0000_0001]),
+                    _ => 1000 + rng.below(7) as u64,
+                };
+                v.push($conv(x));
+            }
+            v
+        }};
+    }
+    macro_rules! page_codec {
+        ($strat:ty, $t:ty, $name:expr, $conv:expr, $bits:expr) => {{
+            let n = *rng.pick(&[0usize, 1, 2, 7, 64, 255, 256, 300]);
+            let v: Vec<$t> = vals!($t, n, $conv);
+            let same = |a: &[$t], b: &[$t]| a.len() == b.len() && a.iter().zip(b).all(|(x, y)| $bits(*x) == $bits(*y));
+            // raw page
+            fz.stats.bump(&format!("decode:{}:raw-page", $name));
+            let raw = <$strat>::values_to_bytes(&v);
+            fz.must(raw.len() == n * size_of::<$t>(), "page|raw-size", format!("{}: raw page of {n} values is {} bytes", $name, raw.len()));
+            match catch(|| <$strat>::bytes_to_values(&raw, n)) {
+                Ok(Ok(back)) => fz.must(same(&back, &v), "page|raw-roundtrip", format!("{}: raw page of {n} values did not decode to the values written", $name)),
+                Ok(Err(e)) => fz.must(false, "page|raw-roundtrip", format!("{}: raw page of {n} values refused: {e}", $name)),
+                Err(p) => fz.must(false, "page|panic", format!("{}: raw page decode panicked: {p}", $name)),
+            }
+            let mut dst: Vec<$t> = vals!($t, rng.below(5), $conv);
+            let r = catch(|| <$strat>::bytes_to_values_into(&raw, n, &mut dst));
+            fz.must(matches!(r, Ok(Ok(()))) && same(&dst, &v), "page|raw-roundtrip", format!("{}: bytes_to_values_into of a raw page differs", $name));
+            // short raw page must be refused, not read past the slice
+            if n > 0 {
+                let r = catch(|| <$strat>::bytes_to_values(&raw[..raw.len() - 1], n));
+                fz.must(matches!(r, Ok(Err(_))), "page|short-raw-accepted", format!("{}: a raw page one byte short was not refused", $name));
+            }
+            // compressed page
+            if n > 0 {
+                fz.stats.bump(&format!("decode:{}:compressed-page", $name));
+                match catch(|| <$strat>::compress(&v)) {
+                    Ok(Ok(c)) => {
+                        match catch(|| <$strat>::decompress(&c, n)) {
+                            Ok(Ok(back)) => fz.must(same(&back, &v), "page|roundtrip", format!("{}: compressed page of {n} values did not decode bit-exactly", $name)),
+                            Ok(Err(e)) => fz.must(false, "page|roundtrip", format!("{}: own compressed page refused: {e}", $name)),
+                            Err(p) => fz.must(false, "page|panic", format!("{}: decode panicked on its own output: {p}", $name)),
+                        }
+                        let mut dst: Vec<$t> = vals!($t, rng.below(5), $conv);
+                        let r = catch(|| <$strat>::decompress_into(&c, n, &mut dst));
+                        fz.must(matches!(r, Ok(Ok(()))) && same(&dst, &v), "page|roundtrip", format!("{}: decompress_into differs", $name));
+                        let mut app: Vec<$t> = vals!($t, 3, $conv);
+                        let head = app.clone();
+                        let r = catch(|| <$strat>::decompress_append(&c, n, &mut app));
+                        fz.must(matches!(r, Ok(Ok(()))) && same(&app[..3], &head) && same(&app[3..], &v), "page|roundtrip", format!("{}: decompress_append differs", $name));
+                        // damaged payloads: an error or some value, never a panic (and, under Miri, no UB)
+                        for _ in 0..3 {
+                            let (m, how) = mutate(rng, &c, &[]);
+                            fz.stats.bump(&format!("decode:{}:{how}", $name));
+                            let mut dst: Vec<$t> = vec![];
+                            if let Err(p) = catch(|| { let _ = <$strat>::decompress_into(&m, n, &mut dst); let _ = <$strat>::decompress(&m, n); }) {
+                                fz.must(false, &format!("page|panic|{}", normalize_msg(&p)), format!("{}: decoder panicked on a {how} payload: {p}", $name));
+                            }
+                        }
+                    }
+                    Ok(Err(e)) => fz.must(false, "page|compress-failed", format!("{}: compress failed on {n} values: {e}", $name)),
+                    Err(p) => fz.must(false, "page|panic", format!("{}: compress panicked: {p}", $name)),
+                }
+            }
+        }};
+    }
+    page_codec!(PcodecStrategy<u16>, u16, "Pco<u16>", |x: u64| x as u16, |x: u16| x as u64);
+    page_codec!(PcodecStrategy<u32>, u32, "Pco<u32>", |x: u64| x as u32, |x: u32| x as u64);
+    page_codec!(PcodecStrategy<u64>, u64, "Pco<u64>", |x: u64| x, |x: u64| x);
+    page_codec!(PcodecStrategy<i64>, i64, "Pco<i64>", |x: u64| x as i64, |x: i64| x as u64);
+    page_codec!(PcodecStrategy<f32>, f32, "Pco<f32>", |x: u64| f32::from_bits(x as u32), |x: f32| x.to_bits() as u64);
+    page_codec!(PcodecStrategy<f64>, f64, "Pco<f64>", |x: u64| f64::from_bits(x), |x: f64| x.to_bits());
+    page_codec!(LZ4Strategy<u8>, u8, "LZ4<u8>", |x: u64| x as u8, |x: u8| x as u64);
+    page_codec!(LZ4Strategy<u32>, u32, "LZ4<u32>", |x: u64| x as u32, |x: u32| x as u64);
+    page_codec!(LZ4Strategy<u64>, u64, "LZ4<u64>", |x: u64| x, |x: u64| x);
+    page_codec!(LZ4Strategy<f64>, f64, "LZ4<f64>", |x: u64| f64::from_bits(x), |x: f64| x.to_bits());
+    page_codec!(LZ4Strategy<[u8; 3]>, [u8; 3], "LZ4<[u8;3]>", |x: u64| [x as u8, (x >> 8) as u8, (x >> 16) as u8], |x: [u8; 3]| x[0] as u64 | (x[1] as u64) << 8 | (x[2] as u64) << 16);
+
+    // raw pointer readers on a heap buffer, every alignment
+    macro_rules! ptr_read {
+        ($strat:ty, $t:ty, $name:expr, $conv:expr, $bits:expr) => {{
+            let n = rng.range(1, 40);
+            let v: Vec<$t> = vals!($t, n, $conv);
+            let mut buf = vec![0xa5u8; rng.below(8)];
+            let lead = buf.len();
+            for x in &v {
+                <$strat as ValueStrategy<$t>>::write_to_vec(x, &mut buf);
+            }
+            fz.stats.bump(&format!("decode:{}:ptr-read", $name));
+            for (i, x) in v.iter().enumerate() {
+                let got = unsafe { <$strat as RawStrategy<$t>>::read_from_ptr(buf.as_ptr(), lead + i * size_of::<$t>()) };
+                fz.must($bits(got) == $bits(*x), "ptr-read|wrong", format!("{}: read_from_ptr at element {i} (lead {lead}) differs", $name));
+                let mut slot = vec![0u8; size_of::<$t>()];
+                <$strat as ValueStrategy<$t>>::write_to_slice(x, &mut slot);
+                fz.must(slot[..] == buf[lead + i * size_of::<$t>()..lead + (i + 1) * size_of::<$t>()], "ptr-read|write_to_slice", format!("{}: write_to_slice and write_to_vec disagree", $name));
+            }
+        }};
+    }
+    ptr_read!(BytesStrategy<u16>, u16, "Bytes<u16>", |x: u64| x as u16, |x: u16| x as u64);
+    ptr_read!(BytesStrategy<u64>, u64, "Bytes<u64>", |x: u64| x, |x: u64| x);
+    ptr_read!(BytesStrategy<u128>, u128, "Bytes<u128>", |x: u64| (x as u128) << 64 | x as u128, |x: u128| x as u64 ^ (x >> 64) as u64);
+    ptr_read!(BytesStrategy<f64>, f64, "Bytes<f64>", |x: u64| f64::from_bits(x), |x: f64| x.to_bits());
+    ptr_read!(BytesStrategy<[u8; 3]>, [u8; 3], "Bytes<[u8;3]>", |x: u64| [x as u8, (x >> 8) as u8, (x >> 16) as u8], |x: [u8; 3]| x[0] as u64 | (x[1] as u64) << 8 | (x[2] as u64) << 16);
+    ptr_read!(ZeroCopyStrategy<u32>, u32, "ZeroCopy<u32>", |x: u64| x as u32, |x: u32| x as u64);
+    ptr_read!(ZeroCopyStrategy<u64>, u64, "ZeroCopy<u64>", |x: u64| x, |x: u64| x);
+}
+
+/// `anydb-verif miri-codecs <seed> <shard> <rounds>`: meant to run under `cargo miri run`
+/// (also runs natively). Prints the same JSON line as a C17 shard.
+pub fn miri_codecs(seed: u64, shard: u64, rounds: u64) -> i32 {
+    let mut stats = Counter::default();
+    let mut rng = Rng::derive(seed, &[1717, shard]);
+    let mut fz = Fz { stats: &mut stats, fail: None };
+    let mut done = 0u64;
+    while done < rounds && fz.fail.is_none() {
+        numeric_roundtrips(&mut fz, &mut rng);
+        fuzz_metadata(&mut fz, &mut rng, 3);
+        fuzz_header_page(&mut fz, &mut rng, 6);
+        fuzz_changes(&mut fz, &mut rng, 1);
+        miri_page_codecs(&mut fz, &mut rng);
+        done += 1;
+    }
+    let fail = fz.fail.take();
+    let out = json!({
+        "shard": shard,
+        "rounds": done,
+        "stats": stats.to_json(),
+        "fail": fail.map(|(sig, what, detail)| json!({"sig": sig, "what": what, "detail": detail})),
+    });
+    println!("MIRICODECS {out}");
+    0
+}
